@@ -775,7 +775,52 @@ def mk_sub(base, idx):
                     return v
         if at.kind == 'ite':
             return mk_ite(at.args[0], mk_sub(at.args[1], idx), mk_sub(at.args[2], idx))
+        if at.kind == 'call' and at.args[0] == 'shape' and len(at.args[1]) == 1:
+            k = idx.const()
+            if k is not None and k.denominator == 1 and k >= 0:
+                d = shape_dim(at.args[1][0], int(k))
+                if d is not None:
+                    return d
     return Term.of(Atom('sub', base, idx))
+
+
+def shape_dim(arr, k):
+    """k-th dimension of an array term where it follows from the constructor / reshape / a leading-slice"""
+    a = arr.single_atom()
+    if a is None:
+        return None
+    if a.kind == 'call' and a.args[0] in ('zeros', 'empty', 'ones', 'full') and a.args[1]:
+        sa = a.args[1][0].single_atom()
+        if sa is not None and sa.kind in ('tuple', 'list') and k < len(sa.args):
+            return sa.args[k]
+    if a.kind == 'call' and a.args[0] == 'reshape' and len(a.args[1]) >= 2:
+        sa = a.args[1][1].single_atom()
+        if sa is not None and sa.kind in ('tuple', 'list') and k < len(sa.args):
+            d = sa.args[k]
+            if d.const() != -1:
+                return d
+    if a.kind == 'sub':
+        base, idx = a.args
+        ia = idx.single_atom()
+        items = list(ia.args) if (ia is not None and ia.kind == 'tuple') else [idx]
+        if any(x.single_atom() is None or x.single_atom().kind != 'slice' for x in items):
+            return None          # integer / fancy indices change the rank
+        full = mk_sub(mk_call('shape', [base]), Term.num(k))
+        if k >= len(items):
+            return full
+        lo, hi, st = items[k].single_atom().args
+        if lo.const() == 0 and _isnone(st):
+            if _isnone(hi):
+                return full
+            # a prefix of length hi: exact when hi is (shape // c) * c  (never exceeds the dimension)
+            q = hi / full if False else None
+            for m, c in hi.p.items():
+                pass
+            ha = [x for x in hi.atoms() if x.kind == 'call' and x.args[0] == 'floordiv' and x.args[1][0].key == full.key]
+            if len(ha) == 1 and (hi - Term.of(ha[0]) * ha[0].args[1][1]).is_zero():
+                return hi
+            return mk_call('min', [hi, full])
+    return None
 
 
 def mk_in(x, cont):
@@ -889,7 +934,7 @@ def canon_seq(t):
 
 
 def canon(t):
-    return rename_loops(subst(t, lambda a: None))
+    return subst(t, lambda a: None)
 
 
 def rename_loops(t):
@@ -1042,6 +1087,8 @@ def compare(a, b, max_conds=8):
     a, b = canon(a), canon(b)
     if a.key == b.key:
         return EQUAL, None
+    if rename_loops(a).key == rename_loops(b).key:
+        return EQUAL, None
     conds = {}
     conds.update(conditions(a))
     conds.update(conditions(b))
@@ -1053,6 +1100,7 @@ def compare(a, b, max_conds=8):
     for mask in range(1 << len(keys)):
         asg = {k: bool(mask >> i & 1) for i, k in enumerate(keys)}
         xa, xb = (assume(a, asg), assume(b, asg)) if keys else (a, b)
+        xa, xb = rename_loops(xa), rename_loops(xb)     # ids of the loops/comprehensions that survive this case
         v, w = _compare_flat(xa, xb)
         if v != EQUAL:
             case = {pretty(conds[k]): asg[k] for k in keys}
@@ -1104,8 +1152,18 @@ def _compare_flat(a, b):
     ea, eb = exposed_syms(a), exposed_syms(b)
     sa_all = {x.args[0] for x in aa.values() if x.kind == 'sym'}
     sb_all = {x.args[0] for x in ab.values() if x.kind == 'sym'}
-    if (ea - sb_all) or (eb - sa_all):
+    hidden = any(x.kind in ('after', 'loopvar', 'undef', 'partial') for x in list(aa.values()) + list(ab.values()))
+    sha0 = {x.args[1][0].key for x in only_a if x.kind == 'call' and x.args[0] == 'shape' and x.args[1]}
+    shb0 = {x.args[1][0].key for x in only_b if x.kind == 'call' and x.args[0] == 'shape' and x.args[1]}
+    if (sha0 or shb0) and sha0 != shb0:
+        return UNDECIDED, 'the two sides use the shapes of different arrays (shape algebra is not modelled)'
+    if not hidden and ((ea - sb_all) or (eb - sa_all)):
         return DIFFERENT, 'depends on different inputs: ' + ', '.join(sorted((ea - sb_all) | (eb - sa_all)))
+    # array-shape algebra is not modelled: shape(u)[k] against an expression over shape(v) is not decisive
+    sha = {x.args[1][0].key for x in only_a if x.kind == 'call' and x.args[0] == 'shape' and x.args[1]}
+    shb = {x.args[1][0].key for x in only_b if x.kind == 'call' and x.args[0] == 'shape' and x.args[1]}
+    if (sha or shb) and sha != shb:
+        return UNDECIDED, 'the two sides use the shapes of different arrays (shape algebra is not modelled)'
     for side, other in ((only_a, only_b), (only_b, only_a)):
         for x in side:
             if x.kind == 'call' and x.args[0] not in MODELLED and x.args[0] not in PACKAGE_HEADS:
